@@ -1,2 +1,3 @@
 pub mod calendar;
+pub mod fields;
 pub mod instant;
